@@ -114,6 +114,23 @@ def symbol_case(ctx, data, cut, do_model=True):
     except Exception as exc:  # pylint: disable=broad-except
         _reused["symbol"] = None
         ctx.fail("symbol-reconfigured", f"a re-configured object raised {type(exc).__name__}: {exc}", dict(case, reused_object=True))
+    # the same for an object configured the way the command line does it: `handle_args` with the parsed options, every time
+    # (also when they happen to be the default sets, after other sets were in force)
+    import argparse
+    obj2 = _reused.get("symbol-args")
+    if obj2 is None:
+        obj2 = _reused["symbol-args"] = loaders.new_testcase("symbol")
+    try:
+        obj2.handle_args(argparse.Namespace(cut_before=B, cut_after=A))
+        rp = loaders.scratch() / "c15-reuse2.txt"
+        rp.write_bytes(data)
+        obj2.load(rp)
+        if list(obj2.parts) != list(res[1].parts):
+            ctx.fail("symbol-reconfigured", f"an object given cut-before={B!r} cut-after={A!r} through handle_args (after other sets) splits {data!r} "
+                     f"into {obj2.parts!r}, a fresh one into {res[1].parts!r}", dict(case, reused_object="handle_args"))
+    except Exception as exc:  # pylint: disable=broad-except
+        _reused["symbol-args"] = None
+        ctx.fail("symbol-reconfigured", f"handle_args on a re-used object raised {type(exc).__name__}: {exc}", dict(case, reused_object="handle_args"))
     if len(res[1].parts) >= 2:
         ctx.nontriv("symbol", B, A, data)
         ctx.bump("symbol:>=2 atoms")
